@@ -634,9 +634,29 @@ def sc_c19_idem(name, seed, mtu):
     return Scenario(name, s.lines)
 
 
+def sc_c19_drain(name, seed, mtu):
+    """more observations than fit one QueryResp, partial drains, Reset: nothing may stay allocated"""
+    rng = random.Random(seed)
+    s = new_script(mtu=mtu)
+    s.rx(1, reset(M1))
+    cap = (mtu - 34) // 20
+    for rnd in range(3):
+        s.rx(1, discover(0, M1, gen=1, seq=1))
+        k = rng.choice([cap + 1, 2 * cap + 1, cap + rng.randrange(1, 40)])
+        for i in range(k):
+            src = bytes([2, 0x41, rnd, (seed >> 3) & 0xFF, i >> 8, i & 0xFF])
+            s.rx(1, probe(src, OWN, src, OWN, train=i & 1))
+        nq = rng.choice([1, 2, 10])
+        s.drain(1, query(M1, OWN, seq=20), nq)
+        s.rx(1, reset(M1))
+    return Scenario(name, s.lines)
+
+
 def campaign_c19(seed, tier):
     rng = random.Random(seed)
     scs = []
+    for mtu in [576, 590, 1500] + ([9216] + [rng.randrange(576, 3000) for _ in range(20)] if tier == "thorough" else []):
+        scs.append(sc_c19_drain("c19-drain-%d" % mtu, rng.randrange(1 << 30), mtu))
     n = 10000 if tier == "quick" else 100000
     for mtu in MTUS:
         scs.append(sc_c19_flood("c19-flood-%d" % mtu, rng.randrange(1 << 30), mtu, n))
